@@ -51,6 +51,9 @@ type Chain struct {
 
 	DevOld, DevNew *Lock
 
+	// OnAccepted is called after ValidateBlock accepted a block and before it is
+	// applied (the store is still at the parent state): the place to try variants.
+	OnAccepted func(cs consensus.State, b types.Block, bs consensus.V1BlockSupplement, kinds []string)
 	OnApply  func(ApplyEvent)
 	OnRevert func(RevertEvent)
 	// OnStoreApplied is called after the store has processed the apply (for
@@ -177,6 +180,9 @@ func (c *Chain) Offer(b types.Block, bs consensus.V1BlockSupplement, kinds []str
 	cs := c.Tip()
 	if err := consensus.ValidateBlock(cs, b, bs); err != nil {
 		return err
+	}
+	if c.OnAccepted != nil {
+		c.OnAccepted(cs, b, bs, kinds)
 	}
 	anc := c.AncestorTimestamp(cs.Index.Height)
 	next, au := consensus.ApplyBlock(cs, b, bs, anc)
